@@ -300,7 +300,42 @@ def get_slice(ex, obj, lo, hi, step, node):
 
 
 def filter_comprehension(ex, node, g, it, elt):
-  raise OutOfSubset('filtering comprehension over a symbolic collection', node)
+  """[x for x in src if P(x)] over a symbolic source: the order-preserving sub-list of the
+  elements satisfying P.  Characterised by ghost index maps f (result index -> source index,
+  strictly increasing) and rank (source index -> result index)  [assumed Python semantics]."""
+  if not (isinstance(elt, ast.Name) and isinstance(g.target, ast.Name) and
+          elt.id == g.target.id):
+    raise OutOfSubset('filtering comprehension with a mapping element', node)
+  env0 = dict(ex.frame.env)
+
+  def P(idx):
+    ex.frame.env = dict(env0)
+    ex.assign(g.target, it.at(idx))
+    conds = [ex.truth(ex.ev(c), c) for c in g.ifs]
+    ex.frame.env = env0
+    return z3.And(*conds) if len(conds) > 1 else conds[0]
+
+  w0 = it.at(z3.IntVal(0))
+  ek = kind_of(w0)
+  m = ex.path.fresh_const('flen', sym.IntS)
+  arr = ex.path.fresh_const('farr', z3.ArraySort(sym.IntS, ek.sort()))
+  f = z3.Function(ex.path.fresh_name('fsrc'), sym.IntS, sym.IntS)
+  rank = z3.Function(ex.path.fresh_name('frank'), sym.IntS, sym.IntS)
+  j, j2, i = z3.Int('j!f'), z3.Int('j2!f'), z3.Int('i!f')
+  n = it.len
+  src_at = lambda k: ek.box(it.at(k))
+  ex.path.assume(z3.And(m >= 0, m <= n))
+  ex.path.assume(sym.forall([j], z3.Implies(z3.And(0 <= j, j < m), z3.And(
+      0 <= f(j), f(j) < n, arr[j] == src_at(f(j)), P(f(j)), rank(f(j)) == j)),
+      patterns=[arr[j], f(j)]))
+  ex.path.assume(sym.forall([j, j2], z3.Implies(z3.And(0 <= j, j < j2, j2 < m), f(j) < f(j2)),
+                            patterns=[[f(j), f(j2)]]))
+  ex.path.assume(sym.forall([i], z3.Implies(z3.And(0 <= i, i < n, P(i)), z3.And(
+      0 <= rank(i), rank(i) < m, f(rank(i)) == i, arr[rank(i)] == src_at(i))),
+      patterns=[rank(i), src_at(i)]))
+  lst = VList(KList(ek), m, arr)
+  lst.filter_of = (it, f, rank, P)
+  return lst
 
 
 # -----------------------------------------------------------------------------
@@ -625,8 +660,19 @@ def _list_method(ex, obj, name, args, kwargs, node):
           obj.append(it)
         obj.len = z3.simplify(obj.len)
         return NONE
+      a_len, a_arr = obj.len, obj.arr
       obj.extend(v)
       obj.arr = name_array(ex, obj.arr, 'ext')
+      # the same fact, stated from the side of the two source lists (gives the solver the
+      # element terms of the result to instantiate existentials with)
+      j = z3.Int('j!ex')
+      if not (z3.is_quantifier(a_arr) or z3.is_quantifier(v.arr)):
+        ex.path.assume(z3.ForAll([j], z3.Implies(z3.And(0 <= j, j < a_len),
+                                                 obj.arr[j] == a_arr[j]),
+                                 patterns=[a_arr[j]]))
+        ex.path.assume(z3.ForAll([j], z3.Implies(z3.And(0 <= j, j < v.len),
+                                                 obj.arr[a_len + j] == v.arr[j]),
+                                 patterns=[v.arr[j]]))
       obj._wb()
       return NONE
   if name == 'extendleft' and isinstance(args[0], VList):
